@@ -5,15 +5,15 @@ ID = 'C18'
 ENGINE = 'chartgen+model'
 RULE = ('one generated chart + start state + event script is run under every configuration of {states spied, not} x '
         '{plain, instrumented, queued (instrumented T/F), active object (named/unnamed, instrumented T/F)} x {live_spy} x '
-        '{live_trace} (50 configurations, plus 6 handler-style configurations: un-spied states carrying a foreign functools.wraps decorator (the user\'s own timing / logging wrapper) on every host; active objects run on their real threads, one event at a time, synchronised by a '
+        '{live_trace} (50 configurations, plus 14 handler-style configurations: states carrying a foreign functools.wraps decorator (the user\'s own timing / logging wrapper) - alone, UNDER spy_on, or two of them stacked - on every host, plus 4-5 MIXED-decoration configurations in which only a random half of the chart\'s states carry spy_on; active objects run on their real threads, one event at a time, synchronised by a '
         'harness semaphore released at the end of next_rtc); the ground-truth log (offers, guard evaluations, entries, exits, '
         'inits in order), the rest state after every step and any exception are compared with the plain un-spied run; in half of the cases the chart object is started a SECOND time at the end (after clear_trace() where the host keeps a trace) and that start is compared too. '
         'Every fifth case instead runs an active object with posters racing its thread under detsched, once with live output off and with each live flag combination on: the set of dispatched events and thread survival must be the same. '
         'distinct_nontrivial = distinct (configuration, number of transitions in the script, max depth) tuples')
 CASES = {'quick': 400, 'thorough': 30000}
 BUDGET = {'quick': 150, 'thorough': 300}
-REQUIRE = {'configs_compared': 2000, 'ao_configs_compared': 200, 'transitions': 500, 'concurrent_live_cases': 50, 'handler_style_configs_compared': 1000, 'cases_with_a_second_start': 100}
-ASSUME = ['decoration is all-or-none per chart', 'the plain un-spied run is the reference (tied to the model by C01-C03)']
+REQUIRE = {'configs_compared': 2000, 'ao_configs_compared': 200, 'transitions': 500, 'concurrent_live_cases': 50, 'handler_style_configs_compared': 1000, 'cases_with_a_second_start': 100, 'mixed_decoration_configs_compared': 800}
+ASSUME = ['the plain un-spied run is the reference (tied to the model by C01-C03)']
 CONFIGS = hosts.all_configs()
 STYLE_CONFIGS = hosts.style_configs()
 
@@ -66,6 +66,11 @@ def run_case(ctx, n):
     cfgs = [c for c in CONFIGS if c['host'] != 'ao'] + rng.sample(ao_cfgs, 6) + [c for c in STYLE_CONFIGS if c['host'] != 'ao'] + rng.sample([c for c in STYLE_CONFIGS if c['host'] == 'ao'], 2)
   else:
     cfgs = CONFIGS + STYLE_CONFIGS
+  # MIXED decoration: only some of the chart's states carry spy_on (a different random half in every case), on every host
+  mixed = [{'host': 'plain', 'spied': True, 'mixed': n}, {'host': 'instr', 'spied': True, 'mixed': n},
+           {'host': 'queued', 'spied': True, 'mixed': n, 'instrumented': True}, {'host': 'queued', 'spied': True, 'mixed': n, 'instrumented': True, 'live_spy': True, 'live_trace': True},
+           {'host': 'ao', 'spied': True, 'mixed': n, 'instrumented': True, 'named': rng.random() < 0.5}]
+  cfgs = list(cfgs) + (mixed if ctx.tier != 'quick' else mixed[:3] + rng.sample(mixed[3:], 1))
   for cfg in cfgs:
     if cfg['host'] == 'plain' and not cfg['spied']:
       continue
@@ -78,6 +83,8 @@ def run_case(ctx, n):
     ctx.count('configs_compared')
     if cfg.get('deco'):
       ctx.count('handler_style_configs_compared')
+    if cfg.get('mixed') is not None:
+      ctx.count('mixed_decoration_configs_compared')
     if cfg['host'] == 'ao':
       ctx.count('ao_configs_compared')
     ctx.distinct((name, ntran, max(cg.depth_of(spec['parent'], i) for i in range(spec['n']))))
